@@ -184,6 +184,16 @@ func verifC01Argon(pwd string, salt byte) string {
 	return string(raw.Encode())
 }
 
+// FNV-1a, 32 bit, over the encoded user list
+func verifC01Digest(s string) uint32 {
+	h := uint32(2166136261)
+	for i := 0; i < len(s); i++ {
+		h ^= uint32(s[i])
+		h *= 16777619
+	}
+	return h
+}
+
 func verifC01AuthOp(r *verifutil.Rand, us []verifC01User, action, path, user, pass, token string, ip []byte, ask bool, cv string) string {
 	// regexp oracle: every `~` pattern configured, against this request's path
 	var re []string
@@ -237,9 +247,12 @@ func verifC01AuthOp(r *verifutil.Rand, us []verifC01User, action, path, user, pa
 	if ask {
 		askS = "1"
 	}
-	return fmt.Sprintf("auth %s %s %s %s %s %s %s %s %s %s %s %s",
+	// last column: which user list the oracle columns were computed for (a shrunk replay may have dropped
+	// the reload in front of this line; the driver then makes no prediction for it)
+	return fmt.Sprintf("auth %s %s %s %s %s %s %s %s %s %s %s %s %d",
 		verifutil.HexS(action), verifutil.HexS(path), verifutil.HexS(user), verifutil.HexS(pass), verifutil.HexS(token),
-		verifutil.Hex(ip), askS, cv, verifutil.HexS(verifC01Sha(user)), verifutil.HexS(verifC01Sha(pass)), reS, a2S)
+		verifutil.Hex(ip), askS, cv, verifutil.HexS(verifC01Sha(user)), verifutil.HexS(verifC01Sha(pass)), reS, a2S,
+		verifC01Digest(verifC01EncUsers(us)))
 }
 
 // ---------- generators ----------
